@@ -121,6 +121,7 @@ pub fn ticks_3c(property: &'static str, offset: u32, q: bool) -> EvCell {
             EvOp::EmitS(SK::EM, Mode::Broadcast, Some(0)),
             // a reference to an entity that only some of the recipients can see
             EvOp::EmitS(SK::EM, Mode::Broadcast, Some(1)),
+            EvOp::Burst(1),
         ],
         rounds: if q { 3 } else { 4 },
         tick_choice: true,
